@@ -183,7 +183,7 @@ def run(ctx):
         ctx.evaluations += 1
         if v == 'fail':
             ctx.violation(case, 'regression corpus %s: %s' % (os.path.basename(path), why))
-    failures = hyp.fan_out(ctx, 'pylib.props.c06', 'gen_case', 300 if quick else 10000, extra={'tier': ctx.tier})
+    failures = hyp.fan_out(ctx, 'pylib.props.c06', 'gen_case', 700 if quick else 12000, extra={'tier': ctx.tier})
     seen = set()
     for f in failures:
         c = f['why'].split(':')[0]
